@@ -6,6 +6,7 @@
    Wallet/Notify.v). *)
 From Coq Require Import List String NArith Bool Arith.
 From FFS Require Import Conc.Lockset Conc.LocksetProofs Gen.FsWalletSync Conc.FsWallet Conc.ClosePaths.
+From FFS Require Import Conc.Atomic Conc.AtomicProofs Conc.FsWalletAtomic.
 From FFS Require Import Wallet.Notify Wallet.NotifyProofs.
 Import ListNotations.
 Open Scope list_scope.
@@ -74,7 +75,7 @@ Print Assumptions C17_lock_regions_nonblocking.
 Theorem C17_close_returns_partial :
   close_shape_ok fswallet_prog = true /\
   (forall body tr r, lookup_body fswallet_prog "startFilesystemListener" = Some body ->
-     lpath body tr r -> tr_done fswallet_prog "w.fsListenerDone" tr = true) /\
+     ClosePaths.lpath body tr r -> tr_done fswallet_prog "w.fsListenerDone" tr = true) /\
   (forall s, reach fswallet_prog (init_state fswallet_main) s ->
      forall t th, threads s t = Some th -> about_to_block th = true -> t_held th = []).
 Proof.
@@ -86,6 +87,39 @@ Proof.
     apply (proj1 (C17_lock_regions_nonblocking s Hr)). exists t, th. rewrite E. repeat split; auto. discriminate.
 Qed.
 Print Assumptions C17_close_returns_partial.
+
+(* 3a. The atomic steps of the discovery / notification model ARE critical sections of the source.
+      The theorems 4-7 below quantify over all interleavings of the model's steps "discover"
+      (notify_new_files: scan, insertion into addressToFileMap / addressList, snapshot of the
+      listeners — one call of notifyNewFiles), AddListener and GetAccounts, each taken as ATOMIC.
+      That is justified exactly by this obligation, checked on the structure translated from the
+      current source (Gen/FsWalletSync.v) and proved sound for every control-flow path (calls of
+      wallet methods expanded, deferred unlocks run; any branch outcomes, any number of loop
+      iterations — [bpath], Conc/Atomic.v): in notifyNewFiles, AddListener and GetAccounts every
+      access of the calling goroutine to listeners / addressToFileMap / addressList is made while
+      mux is held and after exactly ONE Lock of mux since the method was entered — all of them lie in
+      the one critical section opened by the method's first Lock — and the method returns with mux
+      released; the goroutines they start touch none of these fields; the accesses a step consists
+      of are present (read of listeners, read and write of addressToFileMap, write of addressList in
+      notifyNewFiles; write of listeners in AddListener; read of addressList in GetAccounts); and the
+      callers of notifyNewFiles (Refresh, the fs event loop) make no such access outside it
+      ([steps_atomic_ok], first conjunct).  Without it — listeners snapshot in one critical section,
+      insertion in another: no data race, theorems 1-3 still hold — an AddListener between the two is
+      registered before the address appears and never receives it; 6 (exactly once) would then say
+      nothing about the code. *)
+Theorem C17_discovery_steps_atomic :
+  steps_atomic_ok fswallet_prog fuel = true /\
+  forall f needs body tr, In (f, needs) atomic_steps ->
+    lookup_body fswallet_prog f = Some body -> Atomic.bpath fswallet_prog body tr ->
+    tr_atomic discovery_mutex discovery_locs tr /\
+    (exists s, ev_run discovery_mutex discovery_locs (mkR false 0) tr = Some s /\ r_held s = false) /\
+    (forall pre l w post, tr = pre ++ EAcc l w :: post -> watched discovery_locs l = true ->
+       List.length (filter (is_lock discovery_mutex) pre) = 1 /\ held_after discovery_mutex false pre = true).
+Proof.
+  assert (H : steps_atomic_ok fswallet_prog fuel = true) by (apply steps_broken_nil; vm_compute; reflexivity).
+  split; [exact H|]. exact (steps_atomic_sound fswallet_prog fuel H).
+Qed.
+Print Assumptions C17_discovery_steps_atomic.
 
 (* ---- discovery / notification: all step sequences of the Notify model = all interleavings of the
         atomic steps {CreateFile, FsEvent, Refresh, AddListener, GetAccounts, NotifierSend}.
@@ -115,7 +149,7 @@ Proof.
 Qed.
 Print Assumptions C17_at_most_once.
 
-(* 6. Exactly once: in every quiescent reachable state, a listener that was registered (at the
+(* 6. Exactly once (of the model whose steps theorem 3a ties to the source): in every quiescent reachable state, a listener that was registered (at the
       state after [ops1]) when the address was not yet listed has received it exactly once.  And a
       listener is never told about an address that was already listed when it registered. *)
 Theorem C17_exactly_once :
@@ -207,3 +241,28 @@ Example C17_notify_nonvacuous :
   quiescent (run ex_addr_of (init [100%N]) (ex_ops1 ++ ex_ops2)) /\
   count_occ pair_dec (log (run ex_addr_of (init [100%N]) (ex_ops1 ++ ex_ops2))) (101%N, 3%N) = 1.
 Proof. split; [exact ex_valid|]. split; [exact ex_quiescent|exact ex_exactly_once]. Qed.
+
+(* the atomicity check accepts a one-section discovery, such a body has a path, and its trace is
+   atomic; the same accesses split over two critical sections of the same mutex (snapshot through a
+   helper that locks on its own, then the insertion) are rejected, as is an access after the Unlock *)
+Example C17_atomic_nonvacuous :
+  let one := [("d", [ILock "mux"; IDeferUnlock "mux"; IWrite ["addressList"]; IRead ["listeners"]])]%string in
+  let two := [("d", [ICall "snap"; ILock "mux"; IDeferUnlock "mux"; IWrite ["addressList"]]);
+              ("snap", [ILock "mux"; IDeferUnlock "mux"; IRead ["listeners"]])]%string in
+  let late := [("d", [ILock "mux"; IWrite ["addressList"]; IUnlock "mux"; IRead ["listeners"]])]%string in
+  atomic_body_ok one discovery_mutex discovery_locs 3 "d" = true /\
+  (exists tr, Atomic.bpath one [ILock "mux"; IDeferUnlock "mux"; IWrite ["addressList"]; IRead ["listeners"]]%string tr /\
+              tr_atomic discovery_mutex discovery_locs tr) /\
+  atomic_body_ok two discovery_mutex discovery_locs 3 "d" = false /\
+  atomic_body_ok late discovery_mutex discovery_locs 3 "d" = false.
+Proof.
+  cbv zeta. split; [vm_compute; reflexivity|]. split; [|split; vm_compute; reflexivity].
+  exists [ELock "mux"; EAcc ["addressList"] true; EAcc ["listeners"] false; EUnlock "mux"]%string. split.
+  - apply (Atomic.BP _ _ [ELock "mux"; EAcc ["addressList"] true; EAcc ["listeners"] false]%string [DUnlock "mux"%string] false [EUnlock "mux"%string]).
+    + apply (Atomic.LP_seq _ _ _ [ELock "mux"%string] [] _ [DUnlock "mux"%string] false); [constructor|].
+      apply (Atomic.LP_seq _ _ _ [] [DUnlock "mux"%string] _ [] false); [constructor|].
+      apply (Atomic.LP_seq _ _ _ [EAcc ["addressList"%string] true] [] _ [] false); [constructor|].
+      apply (Atomic.LP_seq _ _ _ [EAcc ["listeners"%string] false] [] [] [] false); [constructor|constructor].
+    + constructor. constructor.
+  - vm_compute. discriminate.
+Qed.
